@@ -188,3 +188,44 @@ pub(crate) fn c03_erased_ctxt_boxed_frame() {
     expect(&c.0, &[OPEN, ENTER, EXIT, CLOSE]);
     kani::cover!(true);
 }
+
+/// Every forwarding context - &C, Option<C>, Box<C>, Arc<C> and dyn ErasedCtxt - dispatches open_root, open_push and
+/// open_disabled to the SAME method of the inner context, with the same properties ("a disabled frame adds
+/// nothing" must not become a push on the erased path the shared runtime uses).
+#[cfg_attr(kani, kani::proof)]
+#[cfg_attr(kani, kani::unwind(6))]
+pub(crate) fn c03_open_dispatch_contract() {
+    let v: u64 = kani::any();
+    let kind: u8 = kani::any();
+    kani::assume(kind >= 1 && kind <= 3);
+    let via: u8 = kani::any();
+    kani::assume(via <= 3);
+    let c = KindCtxt::new();
+    let props = [("p", v)];
+    fn open<C: Ctxt>(c: C, kind: u8, props: &[(&'static str, u64); 1]) {
+        let f = match kind {
+            1 => c.open_root(props),
+            2 => c.open_push(props),
+            _ => c.open_disabled(props),
+        };
+        c.close(f);
+    }
+    match via {
+        0 => open(&c, kind, &props),
+        1 => {
+            let e: &dyn ErasedCtxt = &c;
+            open(e, kind, &props)
+        }
+        2 => {
+            let o = Some(&c);
+            open(&o, kind, &props)
+        }
+        _ => {
+            let b = Box::new(&c);
+            open(&b, kind, &props)
+        }
+    }
+    assert!(c.opened.get() == kind);
+    assert!(c.p.get() == Some(v));
+    kani::cover!(true);
+}
